@@ -2,7 +2,7 @@
     This file holds only theorem statements closed by [exact]; proofs are in Proofs/C08.v.
     All predicates and constants are the definitions REGENERATED from the Rust source by tools/rs2v
     (Gen/Consts.v, Gen/CltvChecks.v) on every run. *)
-Require Import LdkV.Prim.U64 LdkV.Gen.Consts LdkV.Gen.CltvChecks LdkV.Model.CltvHand LdkV.Model.Timeline LdkV.Proofs.C08.
+Require Import LdkV.Prim.U64 LdkV.Gen.Consts LdkV.Gen.CltvChecks LdkV.Gen.CltvCallSites LdkV.Model.CltvHand LdkV.Model.Timeline LdkV.Proofs.C08.
 Open Scope Z_scope.
 
 Theorem C08_static_assertions :
@@ -89,6 +89,20 @@ Theorem C08_forward_race_won : forall h0 out_cltv in_cltv d t,
   tl_F t <= in_cltv - LATENCY_GRACE_PERIOD_BLOCKS /\
   tl_F t < in_cltv + LATENCY_GRACE_PERIOD_BLOCKS.
 Proof. exact forward_race_won. Qed.
+
+Theorem C08_forward_call_sites_enforce_min_delta : forall h out inn d,
+  In d forward_cltv_min_delta_sites ->
+  check_incoming_htlc_cltv h out inn d = ROk tt ->
+  inn - out >= MIN_CLTV_EXPIRY_DELTA.
+Proof. exact accepted_at_call_site_has_budget. Qed.
+
+Theorem C08_reload_failback_after_burial : forall event_height best,
+  reload_funding_spend_buried event_height best = true <->
+  best >= confirmation_threshold event_height OnchainEventKind_Other 0 None.
+Proof. exact reload_burial. Qed.
+
+Example C08_call_sites_nonempty : forward_cltv_min_delta_sites <> [].
+Proof. discriminate. Qed.
 
 (** Non-vacuity: concrete timelines satisfy the hypotheses. *)
 Example C08_fwd_timeline_exists :
